@@ -1,4 +1,5 @@
 import ZbossModel.Proofs.Codec
+import ZbossModel.Proofs.CodecSound
 import ZbossModel.Generated.Commands
 /-! # C15 - failure responses cut short after the status are returned, never mis-parsed -/
 namespace Zboss.Codec
@@ -137,6 +138,26 @@ theorem C15_cut_before_status (v : View) (pre post : List FView) (f : FView) (xs
 /-- decoders fail with value errors only: a `KeyError` out of `from_frame` has the single cause above -/
 theorem C15_table_rsp : ((Gen.commands.map viewOf).filter (fun v => ctype v == 1)).all
     (fun v => v.statusIdx == some 2 && optParamsOwn v.fields && fieldsOk v.fields) = true := by decide +kernel
+
+
+/-- **never mis-parsed (complete decode)**: whenever `from_frame` returns a complete command, the command's
+    own encoding is exactly the payload that was received - no byte skipped, invented or reinterpreted - and
+    the command is one the constructor accepts -/
+theorem C15_sound (v : View) (hs : SchemaOK v = true) (payload : Bytes) (a : Assign)
+    (h : fromPayload v payload = .ok (.full a)) :
+    encParams v.fields a = payload ∧ toBytes v a = toLE 4 v.header ++ payload := by
+  simp only [SchemaOK, Bool.and_eq_true] at hs
+  obtain ⟨⟨hfok, hown⟩, _⟩ := hs
+  have := parse_sound v payload (fieldsOk_greedyPos _ hfok) (optOwn_of _ hown) a v.fields [] [] payload
+    (by simp) rfl (fun _ => by simp [encParams]) h
+  exact ⟨this, by simp [toBytes, this]⟩
+
+/-- ... for every response / indication class of the regenerated command table -/
+theorem C15_sound_all_classes (v : View) (hv : v ∈ Gen.commands.map viewOf) (hdir : ctype v ≠ 0) (payload : Bytes)
+    (a : Assign) (h : fromPayload v payload = .ok (.full a)) : encParams v.fields a = payload := by
+  have ht : ((Gen.commands.map viewOf).filter (fun v => ctype v != 0)).all SchemaOK = true := by decide +kernel
+  rw [List.all_eq_true] at ht
+  exact (C15_sound v (ht v (by simp only [List.mem_filter]; exact ⟨hv, by simpa using hdir⟩)) payload a h).1
 
 /-! ## non-vacuity -/
 example : let pre : List FView := [⟨.sc (.uint 1), false, 0, []⟩, ⟨.sc (.uint 1), false, 1, []⟩, ⟨.sc (.uint 1), false, 2, []⟩]
